@@ -1,6 +1,6 @@
 (* Entry point of the extracted executable for C07: decodes a case, runs the model, encodes the result. *)
 From Coq Require Import List NArith Bool Arith.
-From CV Require Import Base.Bytes Ast.Defs.
+From CV Require Import Base.Bytes Ast.Defs Ast.Frag.
 Import ListNotations.
 Local Open Scope N_scope.
 
@@ -158,7 +158,8 @@ Definition run (fields : list str) : list str :=
                        str_of_bool (match parse (cpp_of m) (render e) with
                                     | Some a => strs_eqb (table a) (table (tree_of e))
                                     | None => false
-                                    end)])
+                                    end);
+                       str_of_bool (frag5 e); str_of_bool (mid_okP e); str_of_bool (decl_like (renderP e))])
         | _ => BAD
         end
       else if str_eqb tag [112; 97; 114; 115; 101] then
